@@ -11,8 +11,9 @@
    - a transmission is either one packet or a container holding the list of packed packets
      (the container's Chunk is the MarshalStream concatenation of that list: only its length
      is computed, stream_len);
-   - a queued packet that is itself a container (FlagMulti / FlagMultiDevice) is NOT modelled
-     (write_unpack leaves the container unchanged); `sendable` excludes it;
+   - a queued packet that is itself a container (FlagMulti / FlagMultiDevice) carries the list of
+     packets it holds (p_in); write_unpack splices it in; a container nested INSIDE a container is
+     not modelled (the server ignores it, the client unpacks it recursively);
    - verifyPacket's random job number for Job = 0 is not modelled; `sendable` excludes it;
    - notifier.accept (job bookkeeping) and the key exchange are outside the model;
    - pick: the channel-mode cases and the random re-key packet are outside the model;
@@ -80,24 +81,29 @@ Definition or_chan (f : flags) (b : bool) : flags :=
       (f_rest f) (f_group f) (f_pos f) (f_len f).
 
 (* ---- packets ------------------------------------------------------------- *)
-Record packet := mkP {
+(* a queued packet may itself be a container (FlagMulti and/or FlagMultiDevice set): Proxy.notify
+   re-queues the batch of a proxied client whole on the parent Session, Proxy.accept the batch the
+   server sent for a client on that client's queue.  p_in is the list of packets its Chunk holds
+   (meaningful only for containers; p_len is then the length of their stream forms). *)
+Inductive packet := mkP {
   p_id : Z; p_job : Z; p_dev : Z; p_fl : flags; p_tags : list Z;
   p_len : Z;                               (* Chunk.Size(), read position 0 *)
-  p_cid : Z }.                             (* content id (checksum of the payload bytes) *)
+  p_cid : Z;                               (* content id (checksum of the payload bytes) *)
+  p_in : list packet }.                    (* the packed packets when this is a container *)
 
 Definition set_dev (p : packet) (d : Z) : packet :=
-  mkP (p_id p) (p_job p) d (p_fl p) (p_tags p) (p_len p) (p_cid p).
+  mkP (p_id p) (p_job p) d (p_fl p) (p_tags p) (p_len p) (p_cid p) (p_in p).
 Definition set_tags (p : packet) (t : list Z) : packet :=
-  mkP (p_id p) (p_job p) (p_dev p) (p_fl p) t (p_len p) (p_cid p).
+  mkP (p_id p) (p_job p) (p_dev p) (p_fl p) t (p_len p) (p_cid p) (p_in p).
 Definition set_fl (p : packet) (f : flags) : packet :=
-  mkP (p_id p) (p_job p) (p_dev p) f (p_tags p) (p_len p) (p_cid p).
+  mkP (p_id p) (p_job p) (p_dev p) f (p_tags p) (p_len p) (p_cid p) (p_in p).
 Definition untag (p : packet) : packet := set_tags p [].
 
 Definition packet_eqb (a b : packet) : bool :=
   (p_id a =? p_id b) && (p_job a =? p_job b) && (p_dev a =? p_dev b) && flags_eqb (p_fl a) (p_fl b) &&
   zlist_eqb (p_tags a) (p_tags b) && (p_len a =? p_len b) && (p_cid a =? p_cid b).
 
-Definition keepalive (i : Z) (t : list Z) : packet := mkP 0 0 i fl0 t 0 0.
+Definition keepalive (i : Z) (t : list Z) : packet := mkP 0 0 i fl0 t 0 0 [].
 
 Definition len_prefix (s : Z) : Z :=
   if s <? LimitSmall then 1 else if s <? LimitMedium then 2 else if s <? LimitLarge then 4 else 8.
@@ -126,13 +132,29 @@ Inductive tx :=
 | TSingle (p : packet)
 | TMulti (c : cont).
 
-(* writeUnpack(dst, src, true, true) for a src that is not itself a container *)
+(* a container, and what a queued item contributes to a transmission *)
+Definition is_cont (p : packet) : bool := f_multi (p_fl p) || f_mdev (p_fl p).
+Definition expand (p : packet) : list packet := if is_cont p then p_in p else [p].
+Definition FRAG_MAX : Z := 65535.         (* fragMax *)
+
+(* writeUnpack(dst, src, true, true).  A src that is itself a container (either flag) is spliced
+   in: its Chunk is appended and the counts are added; neither its tags nor its flags are taken
+   over.  The two error returns (count 0, too many packets) are ignored by nextPacket: dst stays
+   as it is and src is dropped. *)
 Definition write_unpack (o : cont) (src : packet) : cont :=
-  if f_multi (p_fl src) || f_mdev (p_fl src) then o       (* not modelled, see header *)
+  if is_cont src then
+    let x := f_len (p_fl src) in
+    if x =? 0 then o
+    else if FRAG_MAX <? x + f_len (c_fl o) then o
+    else mkC (c_dev o) (set_len (c_fl o) (f_len (c_fl o) + x)) (c_tags o) (c_in o ++ p_in src)
   else mkC (c_dev o)
            (set_multi (or_chan (set_len (c_fl o) (f_len (c_fl o) + 1)) (f_chan (p_fl src))))
            (c_tags o ++ p_tags src)
            (c_in o ++ [src]).
+
+(* what goes on the wire when a queued packet is sent as it is: a container stays a container *)
+Definition as_tx (p : packet) : tx :=
+  if is_cont p then TMulti (mkC (p_dev p) (p_fl p) (p_tags p) (p_in p)) else TSingle p.
 
 (* The loop of nextPacket.  l is the packet handed in (if any) followed by the channel content:
    on entry of the slow path the channel is non-empty, so iteration 0 (which uses the packet
@@ -177,7 +199,7 @@ Definition next_packet (F NP i : Z) (n : option packet) (q : list packet) (t : l
       match cur with
       | None => (None, None, q')
       | Some p =>
-        if is_own i p then (Some (TSingle (set_tags (norm i p) (p_tags p ++ t))), None, q')
+        if is_own i p then (Some (as_tx (set_tags (norm i p) (p_tags p ++ t))), None, q')
         else
           let o := write_unpack (mkC i fl_multi_mdev [] []) p in
           (Some (TMulti (mkC (c_dev o) (c_fl o) (c_tags o ++ t) (c_in o))), None, q')
@@ -241,10 +263,10 @@ Definition session_next (c : conf) (st : state) : option tx * state :=
   | (None, q) => (None, mkS q None (s_last st))
   | (Some n0, q) =>
     let n := match c_ptags c with Some t => set_tags n0 t | None => n0 end in
-    if is_nil q && is_own (c_own c) n then (Some (TSingle (norm (c_own c) n)), mkS [] None 0)
+    if is_nil q && is_own (c_own c) n then (Some (as_tx (norm (c_own c) n)), mkS [] None 0)
     (* KeyCrypt: a picked packet of our own that carries key material is sent alone; the rest of the
        queue stays queued and state.Last is NOT reset on this path *)
-    else if f_crypt (p_fl n) && is_own (c_own c) n then (Some (TSingle (norm (c_own c) n)), mkS q None (s_last st))
+    else if f_crypt (p_fl n) && is_own (c_own c) n then (Some (as_tx (norm (c_own c) n)), mkS q None (s_last st))
     else
       let t := p_tags n in
       if 0 <? s_last st then
@@ -266,7 +288,7 @@ Definition pc_next (c : conf) (st : state) : option tx * state :=
   match pick c st with
   | (None, q) => (None, mkS q None 0)
   | (Some n, q) =>
-    if is_nil q && is_own (c_own c) n then (Some (TSingle (norm (c_own c) n)), mkS [] None 0)
+    if is_nil q && is_own (c_own c) n then (Some (as_tx (norm (c_own c) n)), mkS [] None 0)
     else
       match next_packet (c_frag c) (c_packets c) (c_own c) (Some n) q (p_tags n) with
       | (o, k, rest) => (o, mkS rest k 0)
@@ -460,6 +482,19 @@ Definition queueable (p : packet) : bool :=
 (* ... and fits a fragment (C02 guarantees it for what Session.write queues) *)
 Definition sendable (F : Z) (p : packet) : bool := queueable p && (psize p <=? F).
 
+(* a queued container as another session's next() builds it: it counts the packets it holds, they
+   are ordinary packets with a device; an own container holds own packets only, the packets of a
+   foreign one are ours or belong to devices registered at the receiving listener *)
+Definition cont_ok (reg : Z -> bool) (i : Z) (p : packet) : bool :=
+  is_cont p && (1 <=? f_len (p_fl p)) && (f_len (p_fl p) =? len (p_in p)) &&
+  forallb (fun v => queueable v && negb (p_dev v =? 0) &&
+                    ((p_dev v =? i) || (negb (is_own i p) && reg (p_dev v)))) (p_in p).
+(* a queued item: an ordinary packet (own, or for a registered device) or such a container *)
+Definition item_ok (reg : Z -> bool) (i : Z) (p : packet) : bool :=
+  if is_cont p then cont_ok reg i p else queueable p && (is_own i p || reg (p_dev p)).
+(* the packets a queue holds, containers opened *)
+Definition flatten (q : list packet) : list packet := flat_map expand q.
+
 (* an ordinary data packet: the peer hands it to receiveSingle / the fragment table unchanged *)
 Definition plain (p : packet) : bool :=
   negb ((p_id p =? SvComplete) && negb (f_crypt (p_fl p))) &&
@@ -512,7 +547,10 @@ Definition fw (w : Z) : flags :=
   mkF (Z.testbit w 0) (Z.testbit w 1) (Z.testbit w 2) (Z.testbit w 3) (Z.testbit w 4) (Z.testbit w 5)
       (Z.testbit w 6) (Z.testbit w 7) (Z.testbit w 8) ((w / 512) mod 128)
       ((w / 65536) mod 65536) ((w / 4294967296) mod 65536) ((w / 281474976710656) mod 65536).
-Definition pk (id job dev w : Z) (tags : list Z) (ln cid : Z) : packet := mkP id job dev (fw w) tags ln cid.
+Definition pk (id job dev w : Z) (tags : list Z) (ln cid : Z) : packet := mkP id job dev (fw w) tags ln cid [].
+(* a queued container: ln = Chunk.Size() = the stream forms of `inner` *)
+Definition pkc (id job dev w : Z) (tags : list Z) (ln : Z) (inner : list packet) : packet :=
+  mkP id job dev (fw w) tags ln 0 inner.
 Definition dl (sid id job dev w : Z) (tags : list Z) (ln cid : Z) : dlv := mkD sid (pk id job dev w tags ln cid).
 Definition ob (id job dev w : Z) (tags : list Z) (plen size cid : Z) (peek : option (Z * Z)) (qlen : Z)
               (d f : list dlv) (err : Z) : obs :=
@@ -527,7 +565,7 @@ Definition tx_obs_head (t : tx) : bool * Z * Z * Z * flags * list Z * Z * Z * Z 
   | TSingle p => (f_multi (p_fl p), p_id p, p_job p, p_dev p, p_fl p, p_tags p, p_len p, psize p, p_cid p)
   | TMulti c =>
     let pl := sum_stream (c_in c) in
-    (f_multi (c_fl c), 0, 0, c_dev c, c_fl c, c_tags c, pl, psize (mkP 0 0 (c_dev c) (c_fl c) (c_tags c) pl 0), 0)
+    (f_multi (c_fl c), 0, 0, c_dev c, c_fl c, c_tags c, pl, psize (mkP 0 0 (c_dev c) (c_fl c) (c_tags c) pl 0 []), 0)
   end.
 
 Definition stored_frag (d : dlv) : bool :=
@@ -565,7 +603,7 @@ Definition step_matches (s : step) (o : obs) : bool :=
     set_eqb tags (o_tags o) && (pl =? o_plen o) && (cid =? o_cid o) &&
     (* Size() counts the tags, and mergeTags removes duplicates in an unspecified way only when
        both lists are non-empty: compare it through the observed tag count *)
-    (psize (mkP id job dev fl (o_tags o) pl 0) =? o_size o) &&
+    (psize (mkP id job dev fl (o_tags o) pl 0 []) =? o_size o) &&
     peek_eqb (s_peek (st_after s)) (o_peek o) && (len (s_q (st_after s)) =? o_qlen o) &&
     list_eqb dlv_obs_eqb (filter mux_visible (st_dlv s)) (o_dlv o) &&
     perm_b (filter stored_frag (st_dlv s)) (o_frags o) &&
